@@ -175,24 +175,41 @@ func c07Present(now time.Time, loc, tok string, ttl time.Duration, key, what str
 	return c07Pres{loc, tok, ttl, key, c07VName(err), what}, true
 }
 
-func (p c07Pres) term() string {
-	return fmt.Sprintf("P %s %s %s %s %s", gStr(p.Loc), gStr(p.Tok), gN(int64(p.TTL)), gStr(p.Key), p.Obs)
+// a perturbation: the locator as an edit of the base string (Gallina term of type edit), token / ttl
+// delta / key with "same" flags
+type c07Pert struct {
+	What, Edit, Loc, Tok string
+	DTTL               time.Duration
+	Key                string
+}
+
+func c07Opt(same bool, v string) string {
+	if same {
+		return "None"
+	}
+	return "(Some " + v + ")"
 }
 
 const c07Repl = "0aAfF+@gBz -_9\n"
 
-func c07Perturbations(r *vRand, all bool, signed, loc, tok string, ttl time.Duration, key string, exp int64, otherHash string) (out [][5]string) {
-	// (what, loc, tok, ttlDelta, key) with ttlDelta in ns as decimal string
+func c07Perturbations(r *vRand, all bool, signed, loc, tok string, ttl time.Duration, key string, exp int64, otherHash string) (out []c07Pert) {
 	add := func(what, l, t string, dttl time.Duration, k string) {
-		out = append(out, [5]string{what, l, t, strconv.FormatInt(int64(dttl), 10), k})
+		e := "EId"
+		if l != signed {
+			e = "(ELoc " + gStr(l) + ")"
+		}
+		out = append(out, c07Pert{what, e, l, t, dttl, k})
 	}
 	add("identity", signed, tok, 0, key)
+	set := func(i int, c byte) {
+		if signed[i] != c {
+			out = append(out, c07Pert{"char", fmt.Sprintf("(ESet %d %d)", i, c), signed[:i] + string(c) + signed[i+1:], tok, 0, key})
+		}
+	}
 	for i := 0; i < len(signed); i++ {
 		if all {
 			for _, c := range []byte(c07Repl) {
-				if signed[i] != c {
-					add("char", signed[:i]+string(c)+signed[i+1:], tok, 0, key)
-				}
+				set(i, c)
 			}
 		} else {
 			c := c07Repl[r.Intn(len(c07Repl))]
@@ -200,15 +217,14 @@ func c07Perturbations(r *vRand, all bool, signed, loc, tok string, ttl time.Dura
 				// stay inside the hex alphabet half of the time: these are the interesting ones
 				c = "0123456789abcdef"[r.Intn(16)]
 			}
-			if signed[i] != c {
-				add("char", signed[:i]+string(c)+signed[i+1:], tok, 0, key)
-			}
+			set(i, c)
 		}
 	}
 	for k := 0; k < 6; k++ {
 		i := r.Intn(len(signed))
-		add("delete-char", signed[:i]+signed[i+1:], tok, 0, key)
-		add("insert-char", signed[:i]+string(c07Repl[r.Intn(len(c07Repl))])+signed[i:], tok, 0, key)
+		out = append(out, c07Pert{"delete-char", fmt.Sprintf("(EDel %d)", i), signed[:i] + signed[i+1:], tok, 0, key})
+		c := c07Repl[r.Intn(len(c07Repl))]
+		out = append(out, c07Pert{"insert-char", fmt.Sprintf("(EIns %d %d)", i, c), signed[:i] + string(c) + signed[i:], tok, 0, key})
 	}
 	ai := strings.Index(signed, "+A")
 	rest := signed[ai+2:]
@@ -590,8 +606,7 @@ func TestVerifC07(t *testing.T) {
 			var pdesc []interface{}
 			accepted := 0
 			for _, q := range c07Perturbations(r, thorough, signed+post, loc, tok, ttl, key, exp, c07Hash(r, seed, i, 1)) {
-				d, _ := strconv.ParseInt(q[3], 10, 64)
-				p, ok := c07Present(now, q[1], q[2], ttl+time.Duration(d), q[4], q[0])
+				p, ok := c07Present(now, q.Loc, q.Tok, ttl+q.DTTL, q.Key, q.What)
 				if !ok {
 					cs.Tag("skipped-near-now")
 					continue
@@ -599,15 +614,16 @@ func TestVerifC07(t *testing.T) {
 				if p.Obs == "VOk" {
 					accepted++
 				}
-				ps = append(ps, p.term())
-				cs.Tag("perturbation=" + q[0])
+				ps = append(ps, fmt.Sprintf("D %s %s %s %s %s", q.Edit, c07Opt(q.Tok == tok, gStr(q.Tok)), c07Opt(q.DTTL == 0, gN(int64(ttl+q.DTTL))),
+					c07Opt(q.Key == key, gStr(q.Key)), p.Obs))
+				cs.Tag("perturbation=" + q.What)
 				cs.Tag("perturbed-verify=" + p.Obs)
 				if len(pdesc) < 400 {
-					pdesc = append(pdesc, map[string]interface{}{"what": q[0], "locator": p.Loc, "token": p.Tok, "ttl_ns": int64(p.TTL), "key": p.Key, "result": p.Obs})
+					pdesc = append(pdesc, map[string]interface{}{"what": q.What, "locator": p.Loc, "token": p.Tok, "ttl_ns": int64(p.TTL), "key": p.Key, "result": p.Obs})
 				}
 			}
-			term := fmt.Sprintf("CPerturb %s %s %s %s %s %s %s\n  %s", gStr(loc), gStr(tok), gN(exp), gN(int64(ttl)), gStr(key), gN(now.UnixNano()), gStr(signed), gList(ps))
-			desc := map[string]interface{}{"index": i, "kind": "perturb", "locator": loc, "token": tok, "expiry": exp, "ttl_ns": int64(ttl), "key": key, "signed": signed,
+			term := fmt.Sprintf("CPerturb %s %s %s %s %s %s %s %s\n  %s", gStr(loc), gStr(tok), gN(exp), gN(int64(ttl)), gStr(key), gN(now.UnixNano()), gStr(signed), gStr(post), gList(ps))
+			desc := map[string]interface{}{"index": i, "kind": "perturb", "locator": loc, "token": tok, "expiry": exp, "ttl_ns": int64(ttl), "key": key, "signed": signed, "post": post,
 				"presentations": len(ps), "accepted": accepted, "perturbations": pdesc}
 			cs.Add(i, term, desc, true, "kind=perturb")
 		case kind < 66: // SignManifest
